@@ -6,7 +6,7 @@ PFX=${2:-mut}
 W=/tmp/${PFX}_$P
 cd /verif
 git -C $W checkout -q -- . ; git -C $W checkout -q --detach $(git -C /repo rev-parse HEAD)
-for d in /tmp/${PFX}_${P}_out/m*; do
+for d in /tmp/${PFX}_${P}_out/m[0-9]; do
   m=$(basename $d)
   echo "== $P $m"
   if git -C $W apply $d/patch.diff; then
